@@ -482,8 +482,11 @@ def sweep_structure(ctx, rule):
         if not okth:
             break
         cond, a_, b_ = c.args
-        empty = cond.op == "cmp" and cond.args[0] == "==" and cond.args[2].op == "list" and not cond.args[2].args[0] \
-            and cond.args[1].op == "loopvar" and _init(cond.args[1]).op == "list" and not _init(cond.args[1]).args[0]
+        empty = False
+        if cond.op == "cmp" and cond.args[0] == "==":
+            for lst, var in ((cond.args[2], cond.args[1]), (cond.args[1], cond.args[2])):
+                empty = empty or (lst.op == "list" and not lst.args[0] and var.op == "loopvar" and _init(var).op == "list"
+                                  and not _init(var).args[0])
         inf = A.spec("np.inf", {"np": glob("numpy")})
         mids = [x for x in subterms(b_) if x.op == "sub" and x.args[0] is scores0]
         okth = okth and empty and a_ is inf and len({m.uid for m in mids}) == 2 and \
